@@ -24,7 +24,13 @@ H == Trace[l]
 SeqSet(q) == {q[i] : i \in DOMAIN q}
 B(x) == IF x THEN 1 ELSE 0
 
-Start(i) == IF i <= N THEN NewCache(Trace[i].limit, Trace[i].unit) ELSE NewCache(1, TRUE)
+\* a history may start from a cache pre-filled (sequentially, before the goroutines start) with
+\* keys 1001 .. 1000+fill, values <<key, fsz>>, in that order of use
+Prefilled(limit, unit, n, sz) ==
+  [order |-> [i \in 1..n |-> 1000 + i], val |-> [x \in 1001..(1000 + n) |-> <<x, sz>>], limit |-> limit, unit |-> unit]
+Start(i) == IF i <= N THEN (IF Trace[i].fill > 0 THEN Prefilled(Trace[i].limit, Trace[i].unit, Trace[i].fill, Trace[i].fsz)
+                            ELSE NewCache(Trace[i].limit, Trace[i].unit))
+            ELSE NewCache(1, TRUE)
 
 TInit == TLCSet(1, 0) /\ l = 1 /\ done = {} /\ cbp = 0 /\ c = Start(1)
 
